@@ -288,6 +288,27 @@ theorem stale_buffer_bytes_are_irrelevant (chunks more : List (List UInt8)) (jun
   have hp := (digest_chunks_from _ p hI more).1
   exact ⟨hq.trans hp.symm, hq⟩
 
+/-- the two key equivalences RFC 2104 implies, for the CODE's `hmac` (and, through `hmac_translated_eq_rfc2104`, for the body
+translated from `Sha256.hpp`): a key longer than the block is interchangeable with its own SHA-256 digest (computed by the
+code's `hash`), and a key shorter than the block is interchangeable with itself followed by a zero byte - for every message.
+Both say that the key normalisation (hash if longer, zero-fill to 64) is done exactly once and exactly as specified: hashing a
+64-byte key, not zero-filling, or zero-filling before hashing would each break one of them. -/
+theorem hmac_key_equivalences (key msg : List UInt8) (hk : key.length < 2 ^ 61) (hm : msg.length + 64 < 2 ^ 61) :
+    (64 < key.length → hmac key msg = hmac (hash key) msg) ∧
+    (key.length < 64 → hmac (key ++ [0]) msg = hmac key msg) := by
+  constructor
+  · intro h
+    have hh : hash key = Spec.sha256 key := hash_eq_fips key hk
+    have hl : (Spec.sha256 key).length < 2 ^ 61 := by rw [sha256_length]; decide
+    rw [hh, hmac_eq_rfc2104 key msg hk hm, hmac_eq_rfc2104 _ msg hl hm]
+    unfold Spec.hmacSha256
+    rw [hmacKey_long key h]
+  · intro h
+    have hl : (key ++ [0]).length < 2 ^ 61 := by simp; omega
+    rw [hmac_eq_rfc2104 key msg hk hm, hmac_eq_rfc2104 _ msg hl hm]
+    unfold Spec.hmacSha256
+    rw [hmacKey_zero key h]
+
 /-! ### non-vacuity: the hypotheses are met by concrete non-trivial inputs -/
 
 example : ([[0x61], [], [0x62, 0x63]] : List (List UInt8)).flatten.length < 2 ^ 61 := by decide
@@ -304,5 +325,7 @@ example : update (update init [1, 2]) (List.replicate 70 3) = update init ([1, 2
   (chunking_leaves_no_trace init [1, 2] (List.replicate 70 3) []).1
 
 example : (64 - bufferPos ([[1, 2, 3]].foldl update init) = 61) ∧ (List.replicate 61 (0xEE : UInt8)).length = 61 := by decide
+
+example : 64 < (List.replicate 65 (1 : UInt8)).length ∧ ([7] : List UInt8).length < 64 := by decide
 
 end Nstd.Sha
